@@ -6,7 +6,14 @@
 package c18
 
 import (
+	"sync"
+
 	"crypto/sha256"
+	eth2api "github.com/attestantio/go-eth2-client/api"
+	eth2v1 "github.com/attestantio/go-eth2-client/api/v1"
+	"github.com/attestantio/go-eth2-client/spec/altair"
+	"github.com/obolnetwork/charon/core/validatorapi"
+	"verifharness/fakebn"
 
 	k1 "github.com/decred/dcrd/dcrec/secp256k1/v4"
 	"github.com/libp2p/go-libp2p/core/peer"
@@ -39,7 +46,7 @@ import (
 
 func TestMain(m *testing.M) { vstat.Main(m) }
 
-const rule = "every core value type x fork version (testutil.NewEth2Fuzzer, seed drawn) through every hand-over point: dutydb Store argument and both results of each Await*, parsigdb Store* argument / threshold- and internal-subscriber fan-out, aggsigdb (both implementations) Store argument and Await results, sigagg subscriber fan-out; " +
+const rule = "every core value type x fork version (testutil.NewEth2Fuzzer, seed drawn) through every hand-over point: dutydb Store argument and both results of each Await*, parsigdb Store* argument / threshold- and internal-subscriber fan-out, aggsigdb (both implementations) Store argument and Await results, sigagg subscriber fan-out, parsigex subscriber fan-out (peer message), validator API subscriber fan-out (exit, sync message, selections); " +
 	"a reflect walker scribbles over every reachable pointer target, slice element and map entry of the handed / returned value, a later read must render identically to the pristine snapshot and two results must share no address; " +
 	"non-trivial = the value has >= 1 reachable reference; distinct by (site, type, seed)"
 
@@ -117,6 +124,9 @@ func init() {
 		}},
 		{"sigagg", func(k valgen.Kind) bool { return !k.Unsigned && k.Duty != core.DutySignature }, runSigAgg},
 		{"parsigex_fanout", func(k valgen.Kind) bool { return !k.Unsigned }, runParSigExFanout},
+		{"validatorapi_fanout", func(k valgen.Kind) bool {
+			return !k.Unsigned && (k.Duty == core.DutyExit || k.Duty == core.DutySyncMessage || k.Duty == core.DutyPrepareAggregator || k.Duty == core.DutyPrepareSyncContribution)
+		}, runValidatorAPIFanout},
 	}
 }
 
@@ -519,4 +529,91 @@ func runParSigExFanout(t *testing.T, rt *rapid.T, k valgen.Kind, seed int64) (bo
 	mustSame(rt, "parsigex "+k.Name+": second subscriber after the first one mutated its argument", pristine, a2[0][pk(1)])
 	mustDisjoint(rt, "parsigex "+k.Name+": arguments of two subscribers", a1[0], a2[0])
 	return len(valgen.Walk(v)) > 0, ""
+}
+
+// ---------------------------------------------------------------- validatorapi subscriber fan-out
+
+var (
+	vapiOnce sync.Once
+	vapiBN   *fakebn.BN
+)
+
+// runValidatorAPIFanout submits a partially signed object through the production validator API component
+// (signature verification off: isolation, not validity, is the subject) with two subscribers.
+func runValidatorAPIFanout(t *testing.T, rt *rapid.T, k valgen.Kind, seed int64) (bool, string) {
+	vapiOnce.Do(func() {
+		vapiBN = fakebn.New()
+		raw, _ := pk(1).Bytes()
+		var bls eth2p0.BLSPubKey
+		copy(bls[:], raw)
+		vapiBN.SetValidators(map[eth2p0.ValidatorIndex]eth2p0.BLSPubKey{7: bls})
+	})
+	ctx := context.Background()
+	comp, err := validatorapi.NewComponentInsecure(t, vapiBN, 2)
+	if err != nil {
+		rt.Fatalf("HARNESS-ERROR: %v", err)
+	}
+	comp.RegisterAwaitAggSigDB(func(context.Context, core.Duty, core.PubKey, core.SubcommitteeIndex) (core.SignedData, error) {
+		return nil, fmt.Errorf("nothing aggregated in this harness")
+	})
+	var a1, a2 []core.ParSignedDataSet
+	comp.Subscribe(func(_ context.Context, _ core.Duty, set core.ParSignedDataSet) error {
+		a1 = append(a1, set)
+		for _, d := range set {
+			valgen.Scribble(&d)
+		}
+		return nil
+	})
+	comp.Subscribe(func(_ context.Context, _ core.Duty, set core.ParSignedDataSet) error {
+		a2 = append(a2, set)
+		return nil
+	})
+	v := valgen.Signed(t, k, seed)
+	var submitted any
+	var pristine string
+	switch d := v.(type) {
+	case core.SignedVoluntaryExit:
+		ex := d.SignedVoluntaryExit
+		ex.Message.ValidatorIndex = 7
+		ex.Message.Epoch %= 1 << 40
+		pristine = render(core.NewSignedVoluntaryExit(&ex))
+		submitted = &ex
+		err = comp.SubmitVoluntaryExit(ctx, &ex)
+	case core.SignedSyncMessage:
+		m := d.SyncCommitteeMessage
+		m.ValidatorIndex = 7
+		pristine = render(core.NewSignedSyncMessage(&m))
+		submitted = &m
+		err = comp.SubmitSyncCommitteeMessages(ctx, []*altair.SyncCommitteeMessage{&m})
+	case core.BeaconCommitteeSelection:
+		sel := d.BeaconCommitteeSelection
+		sel.ValidatorIndex = 7
+		pristine = render(core.NewBeaconCommitteeSelection(&sel))
+		submitted = &sel
+		_, err = comp.BeaconCommitteeSelections(ctx, &eth2api.BeaconCommitteeSelectionsOpts{Selections: []*eth2v1.BeaconCommitteeSelection{&sel}})
+	case core.SyncCommitteeSelection:
+		sel := d.SyncCommitteeSelection
+		sel.ValidatorIndex = 7
+		pristine = render(core.NewSyncCommitteeSelection(&sel))
+		submitted = &sel
+		_, err = comp.SyncCommitteeSelections(ctx, &eth2api.SyncCommitteeSelectionsOpts{Selections: []*eth2v1.SyncCommitteeSelection{&sel}})
+	default:
+		return false, "type"
+	}
+	if err != nil {
+		if len(a1) == 0 {
+			return false, "submit: " + firstWords(err)
+		}
+	}
+	if len(a1) != 1 || len(a2) != 1 {
+		return false, "not-delivered"
+	}
+	var got core.ParSignedData
+	for _, p := range a2[0] {
+		got = p
+	}
+	mustSame(rt, "validatorapi "+k.Name+": second subscriber after the first one mutated its argument", pristine, got.SignedData)
+	mustDisjoint(rt, "validatorapi "+k.Name+": arguments of two subscribers", a1[0], a2[0])
+	mustDisjoint(rt, "validatorapi "+k.Name+": the submitted object and a subscriber's argument", submitted, a2[0])
+	return true, ""
 }
